@@ -1,7 +1,8 @@
 --------------------------- MODULE M_SENT ---------------------------
 (* C09, near-sentences: a list of well-formed condition / update expressions covering every production of the
    grammar, and EVERY single-token edit of each of them: delete a token, duplicate it, swap it with its neighbour,
-   replace it by each token of an edit alphabet, insert each token of the edit alphabet at every position.
+   replace it by each token of an edit alphabet, insert each token of the edit alphabet at every position, and
+   put a pair of parentheses around any span of tokens.
    Most edits are not sentences and must be rejected - wherever in the string the damage is, and whatever the item
    holds (operands of IN after the one that matches, the right operand of OR after a true left one, clauses after the
    first ...); some are other sentences and are judged by their meaning.  TLC only spells the strings; the judge
@@ -62,6 +63,9 @@ Edits(s) ==
   \cup { [s EXCEPT ![i] = s[i + 1], ![i + 1] = s[i]] : i \in 1..(Len(s) - 1) }
   \cup { [s EXCEPT ![i] = t] : i \in DOMAIN s, t \in EditSet }
   \cup { InsertAt(s, i, t) : i \in 0..Len(s), t \in EditSet }
+  \* one two-token edit: a pair of parentheses around any span (a parenthesised condition is a sentence, a parenthesised
+  \* operand, clause or statement is not)
+  \cup { SubSeq(s, 1, i - 1) \o <<T_LP>> \o SubSeq(s, i, j) \o <<T_RP>> \o SubSeq(s, j + 1, Len(s)) : i \in DOMAIN s, j \in DOMAIN s }
 Strings == (UNION { Edits(Sentences[k]) : k \in DOMAIN Sentences }) \ { <<>> }
 
 RECURSIVE Join(_)
